@@ -612,6 +612,8 @@ def run(chk, pid):
     want_acc = True if pid in ("C10", "C11") else "readback" if pid == "C04" else False
     if pid == "C03":
         specs = f3b_specs(chk) + specs
+    if pid == "C07":
+        specs = gap_specs(chk) + specs
     chk.rule = ("operation histories: exhaustive over {add,replace,set} x 3 types x 2 sizes + remove x 3 types up to the stated "
                 "length on crafted files N in {1,2,3} (empty / one opaque block), random histories (2-25 calls, 1-6 contexts, "
                 "all nine block types, opaque pre-populated blocks, full tables, rejected calls of every cause injected) on "
@@ -690,6 +692,33 @@ def f3b_specs(chk):
     open(p, "wb").write(bytes(raw))
     ev = container.small_block("EV", rng, 1)
     return [("sound but not compact: unused slots carry offset 0", p, [[("add", ev, None)]], "F3b-unused-offset-zero finding")]
+
+
+def gap_specs(chk):
+    """C07, cause 'an unused slot lies between live blocks': files with a hole in the table (not reachable by
+    the library's own histories, but well-formed); add / replace / set must raise and change nothing"""
+    import struct
+    rng = common.rng_for(chk.seed, "gap")
+    out = []
+    pool = make_pool(rng, ["EV", "D3", "FT", "EM"])
+    for j, (n, gap_at, nlive) in enumerate([(4, 1, 3), (5, 0, 3), (3, 1, 3), (14, 2, 5), (4, 2, 4)]):
+        p = os.path.join(chk.work, "gap%d.tdf" % j)
+        kinds = ["EV", "D3", "EM", "FT", "OS"][:nlive]
+        craft_file(p, n, [])
+        ops = [("add", pool.get(k, [container.small_block(k, rng, 1)])[-1], "g%d" % i) for i, k in enumerate(kinds)]
+        container.run_impl(p, [ops])
+        raw = bytearray(open(p, "rb").read())
+        o = 64 + 288 * gap_at
+        struct.pack_into("<IIii", raw, o, 0, 0, struct.unpack_from("<i", raw, o + 8)[0], 0)     # slot becomes unused, size 0
+        open(p, "wb").write(bytes(raw))
+        live = [k for i, k in enumerate(kinds) if i != gap_at]
+        before = [k for i, k in enumerate(kinds) if i < gap_at]
+        for op in ([("replace", rng.choice(pool[k]), None) for k in live if k in pool] +
+                   [("set", rng.choice(pool[k])) for k in live if k in pool and k in SETTER] +
+                   [("add", container.small_block("PC", rng, 1), None), ("set", container.small_block("PD", rng, 1))]):
+            out.append(("unused slot %d between live blocks, N=%d" % (gap_at, n), p, [[op, ("add", container.small_block("CA", rng, 1), "after")]],
+                        "gap in the table"))
+    return out
 
 
 def replay(chk, pid, path):
